@@ -14,7 +14,7 @@ ANCHORS = [
 RULE = (
     "full product splitter {expanding, sliding, single} x window x step x fh (non-empty "
     "subsets of {1..3}) x n x strategy {refit, update} x scoring {default sMAPE, "
-    "MAPE(symmetric=False), asymmetric make_forecasting_scorer} x forecaster {recording "
+    "MAPE(symmetric=False), asymmetric make_forecasting_scorer, a greater_is_better=True scorer} x forecaster {recording "
     "last/mean, Naive last/mean/drift, PolynomialTrend} x (X, return_data, forecaster already "
     "fitted on the whole series before the call) in {(None,F,F), (1 col,T,F), (None,F,T)} "
     "(thorough: crossed). Oracle: honest per-fold loop in the harness with fresh "
@@ -26,7 +26,7 @@ ASSUMPTIONS = [
 ]
 
 FORECASTERS = ["rec_last", "rec_mean", "naive_last", "naive_mean", "naive_drift", "poly"]
-SCORINGS = ["default", "mape_asym", "custom_asym"]
+SCORINGS = ["default", "mape_asym", "custom_asym", "custom_gib"]
 
 
 def gen_cases(tier, seed):
@@ -65,6 +65,12 @@ def _asym(y_true, y_pred):
     return float(np.mean(np.abs(yt - yp) / (np.abs(yt) + 1.0)) + 0.01 * np.mean(yp))
 
 
+def _hit(y_true, y_pred):
+    yt = np.asarray(y_true, dtype=float)
+    yp = np.asarray(y_pred, dtype=float)
+    return float(1.0 / (1.0 + np.mean(np.abs(yt - yp)))) + 0.001 * float(np.mean(yt))
+
+
 def _mk_scoring(name):
     from sktime.performance_metrics.forecasting import (
         MeanAbsolutePercentageError, make_forecasting_scorer)
@@ -73,6 +79,10 @@ def _mk_scoring(name):
         return None, MeanAbsolutePercentageError()
     if name == "mape_asym":
         m = MeanAbsolutePercentageError(symmetric=False)
+        return m, m
+    if name == "custom_gib":
+        # a score where greater is better: evaluate must still report metric(y_true, y_pred)
+        m = make_forecasting_scorer(_hit, name="hit", greater_is_better=True)
         return m, m
     m = make_forecasting_scorer(_asym, name="asym")
     return m, m
